@@ -359,6 +359,11 @@ def _session_check(messages, files=None):
             srv, out = session(ws, msgs)
         except Exception as e:  # noqa: BLE001
             return {"problem": f"server loop raised {e!r}", "messages": messages}
+        broken = [m for m in out if "_unparsed" in m or "_bad_length" in m]
+        if broken:
+            return {"problem": "what the server wrote cannot be read back as a sequence of frames (length in bytes, JSON body)",
+                    "first_bad_frame": {k: (v if k != "_unparsed" else v[:200]) for k, v in broken[0].items() if k in ("_unparsed", "_bad_length", "id")},
+                    "messages": messages}
         resp = [m for m in out if "id" in m and ("result" in m or "error" in m)]
         want = [0] + [m["id"] for m in msgs if "id" in m]
         # after `exit` nothing is served
@@ -452,6 +457,14 @@ def search(func, tier, seed, obligation=""):
         w = _session_check(sc)
         if w:
             return w
+    # documentation with non-ASCII text travels through hover and symbol answers
+    w = _session_check([did, {"jsonrpc": "2.0", "id": 1, "method": "textDocument/hover",
+                              "params": {"textDocument": {"uri": "$A"}, "position": {"line": 2, "character": 12}}},
+                        {"jsonrpc": "2.0", "id": 2, "method": "textDocument/documentSymbol", "params": {"textDocument": {"uri": "$A"}}},
+                        {"jsonrpc": "2.0", "id": 3, "method": "nosuch/é", "params": {"x": "—"}}],
+                       files={"a.f90": "module météo\n  !> Calcule la température moyenne (°C) — données d'été 中\n  real :: température\nend module météo\n"})
+    if w:
+        return w
     # a notification whose handler fails inside diagnostics (self-referential submodule)
     w = _session_check([did, hov(1)], files={"a.f90": "submodule (m) m\ntype(nosuch) :: x\nend submodule m\n"})
     return w
@@ -506,6 +519,6 @@ def extra(repo, reg, tier, seed):
     # bounded native sessions (labelled bounded): known/unknown/malformed methods interleaved with sync events
     w = search(f"{LS}.run", tier, seed, "ensures.session")
     items.append(Item("C01/session/native_protocol", "refuted" if w else "bounded-ok", "native-run(bounded)", 0.0,
-                      mode="bounded", detail="bounded: 7 scripted sessions over the real server (ids, order, error codes, exit)",
+                      mode="bounded", detail="bounded: 8 scripted sessions over the real server (ids, order, error codes, exit)",
                       witness=w, confirmed=True if w else None, func=f"{LS}.run"))
     return items
